@@ -135,6 +135,15 @@ def passthrough_drops_discriminator(job, failure) -> bool:
     return "plain" in ex and strip(ex["plain"]) == strip(ex["other"]) and ex["plain"] != ex["other"]
 
 
+def graphql_resolver_only_recursion(job, failure) -> bool:
+    """C19 build case: a type recursive only through a resolver's return type"""
+    return (
+        job.get("case") == "resolver_recursion"
+        and failure.get("kind") == "schema-build-raises"
+        and failure.get("extra", {}).get("exc") == "RecursionError"
+    )
+
+
 def dependent_required_exclude_defaults(job, failure) -> bool:
     """C07: the output validates once dependentRequired is removed from the schema, and
     the job runs with exclude_defaults"""
